@@ -404,6 +404,7 @@ class Run:
         elif name == "gen":
             self.oracle_gen(site, res, before, after)
         elif name == "replace_net":
+            self.oracle_replace(site, o, res, before, after)
             self.oracle_removed(site, before, after, op)
         else:
             self.oracle_removal(site, kind, args, res, before, after, op)
@@ -519,6 +520,23 @@ class Run:
         self.generated.add(n)
 
     # -- clause 4
+    def oracle_replace(self, site, net, res, before, after):
+        """Replacing the network releases the ids of the old network's members, so the new network only has to avoid the ids of
+        what stays (the obstacles) and duplicates of its own."""
+        ids = ids_of(net)
+        staying = set()
+        for k, objs in before["cont"].items():
+            if k not in NETKINDS:
+                for x in objs:
+                    staying.update(ids_of(x))
+        if len(set(ids)) == len(ids) and not (set(ids) & staying):
+            if res[0] != "ok":
+                self.fail(site, "ids-of-replaced-network-not-released",
+                          f"{site} with member ids {sorted(ids)} raises {res[2]} although only ids of the replaced network "
+                          f"({sorted(set(before['ids']) - staying)}) are reused and the ids of the remaining objects are {sorted(staying)}")
+            elif after["net"] is not net:
+                self.fail(site, "network-not-replaced", f"{site} returned but the scenario does not hold the new network")
+
     def oracle_removed(self, site, before, after, op):
         """Every object that left the scenario at this step can be added again (on a copy), unless one of its ids is
         used by an object that is contained now."""
